@@ -4,7 +4,7 @@ GO = "go"          # repository toolchain (1.23.5)
 GO126 = "go1.26.8"  # needed for testing/synctest (virtual clock, owned schedule)
 
 QUEUE_COMMON = {"verif_qcommon_test.go": "harness/shared/queue_common_test.go"}
-VERIFX = {"internal/verifx/errtree.go": "harness/shared/verifx/errtree.go"}
+VERIFX = {"internal/verifx/errtree.go": "harness/shared/verifx/errtree.go", "internal/verifx/monitor.go": "harness/shared/verifx/monitor.go"}
 
 CHECKS = {
     "C17": {
@@ -286,7 +286,23 @@ CHECKS["C19"] = {
     "assumptions": ["toolchain go1.26.8 (newer than the repository's 1.23.5) is used to get testing/synctest"],
 }
 
+CHECKS["C03"] = {
+    "title": "every SMTP/LMTP transaction finalised once and matches its reply",
+    "go": GO,
+    "units": [
+        {"name": "endpoint", "pkg": "internal/endpoint/smtp", "run": "^TestVerifC03",
+         "overlay": {"verif_c03_test.go": "harness/C03/session_test.go"}, "overlay_abs": VERIFX},
+    ],
+    "quick": {"n": 16000, "shards": 16},
+    "thorough": {"n": 640000, "shards": 16},
+    "level_text": "randomised search (rapid) over endpoint configurations, injected faults and command sequences, played by a raw-socket client against the real endpoint "
+                  "(real go-smtp server, real pipeline, limits, checks and modifiers configured through the directive parsers); oracle = typestate monitor + reply/commit agreement + permit accounting.",
+    "level_note": "runs on real loopback sockets (no virtual clock): read time-outs are reported as 'no reply', never as a protocol violation of another kind; "
+                  "nothing is asserted about which error text or code is returned (that is C16)",
+    "technique": "property-based testing (rapid, state-aware command grammar + fault injection) with typestate and accounting oracles",
+}
+
 # properties deliberately not claimed: {"property_id":..., "reason":...}
 NOT_APPLICABLE = []
 
-FIX_COMMITS = ["b0fbfbf", "ce16772", "79536cb", "9da7ceb", "ba9a898", "cd17c24", "0f579ef", "cfad1cd", "1450983", "0eb6137", "4ba5ca6", "2f36527", "b732485", "0e0d97d", "b946db5"]
+FIX_COMMITS = ["b0fbfbf", "ce16772", "79536cb", "9da7ceb", "ba9a898", "cd17c24", "0f579ef", "cfad1cd", "1450983", "0eb6137", "4ba5ca6", "2f36527", "b732485", "0e0d97d", "b946db5", "3bc2b0d", "7489d42", "0cccb75", "c472f5d", "674085b", "73fcd7e", "697926b", "0e63ec2", "16c771f"]
